@@ -127,6 +127,27 @@ def run_pair(c, rec):
         tags.update(bc=c["bc"], order=c["order"], pd=c["pd"])
     if rec.classify(tags, True):
         return
+    if c["kind"] == "gmrf":
+        # a conjugate step on a field with the same number of nodes, boundary condition and order on the OTHER grid layout is made
+        # first (anything the sampler remembers between posteriors under too coarse a key would now be used for the target)
+        n, pd = c["n"], c["pd"]
+        r = int(round(np.sqrt(n)))
+        other = dict(c, pd=1, n=n * n) if pd == 2 else (dict(c, pd=2, n=r) if r * r == n and r >= 2 else None)
+        if other is not None:
+            dim_o = other["n"] if other["pd"] == 1 else other["n"] ** 2
+            other.update(mean=list(np.linspace(-1, 1, dim_o)), x=list(np.cos(np.arange(dim_o) + 1.0)), baseline_pow=0)
+
+            def decoy_step():
+                t = build_pair(other)
+                if c["interface"] == "experimental":
+                    sd_ = cuqi.experimental.mcmc.Conjugate(t)
+                    sd_.initialize()
+                    sd_.step()
+                else:
+                    cuqi.sampler.Conjugate(t).step()
+            with patched_global(ScriptedRNG(fallback_seed=c["seed"] + 7, record_only=True)):
+                if not refuses(decoy_step)[0]:
+                    rec.count("decoy_step_on_other_grid_layout")
     target = must(lambda: build_pair(c), "building the conjugate posterior")
     require(type(target).__name__ == "Posterior", "harness: expected a Posterior", got=type(target).__name__)
     if c["interface"] == "experimental" and c.get("retarget"):
